@@ -47,6 +47,31 @@ def anchor_modules(prop: str):
     return mods
 
 
+def _callee_still_accepts(ix, table, callee: str, ref_call, lost_kw) -> bool:
+    """True when every function of the package that the call can mean (by its last name) has the same parameter list as on the reference tree and accepts
+    the dropped keyword / the old number of positional arguments; unknown callees (NumPy, builtins) count as unchanged."""
+    name = callee.split(".")[-1]
+    cands = []
+    for mod, mi in ix.modules.items():
+        for qn, fi in mi.functions.items():
+            last = qn.split(".")[-1]
+            if last == name or (last == "__init__" and qn.split(".")[-2:-1] == [name]):
+                cands.append((mod, qn, fi))
+    if not cands:
+        return True
+    for mod, qn, fi in cands:
+        ref = table.get(mod, {}).get(qn)
+        if isinstance(fi.node, ast.Lambda):
+            return False
+        a = fi.node.args
+        now_params = [x.arg for x in a.posonlyargs + a.args + a.kwonlyargs]
+        if ref is None or ref.get("params") is None or ref["params"] != now_params:
+            return False          # the callee changed too: a coordinated signature change, not a dropped argument
+        if any(k not in now_params for k in lost_kw) and not a.kwarg:
+            return False
+    return True
+
+
 def make_rule(prop: str):
     def rule(ctx):
         ix = ctx.index
@@ -54,7 +79,7 @@ def make_rule(prop: str):
         mods = [m for m in anchor_modules(prop) if m in ix.modules]
         if not mods:
             raise AnchorMissing(f"none of the anchor files of {prop} is in the tree")
-        nq = npar = nf = 0
+        nq = npar = nf = nargs = 0
         for mod in mods:
             mt = table.get(mod, {})
             for qn, fi in ix.module(mod).functions.items():
@@ -83,6 +108,26 @@ def make_rule(prop: str):
                         continue          # signature changed: callers would fail loudly
                     ctx.ob(fi.where, f"parameter `{p}` is still read by the function (an argument that is accepted but no longer used is silently replaced by whatever "
                            "the body uses instead)", p in now_p, "", key=f"{prop}-T1|param-unused|{mod}|{qn}|{p}")
+                # T-ARGS: an argument that used to be passed is no longer passed although the callee still takes it (its default silently takes over)
+                now_c = normalize.call_shapes(fi.node)
+                ref_c = ref.get("calls", [])
+                for callee in {c[0] for c in ref_c}:
+                    r_sites = [c for c in ref_c if c[0] == callee]
+                    n_sites = [c for c in now_c if c[0] == callee]
+                    if len(r_sites) != len(n_sites) or any(c[3] for c in r_sites + n_sites):
+                        continue
+                    for rc, nc in zip(r_sites, n_sites):
+                        nargs += 1
+                        lost_kw = [k for k in rc[2] if k not in nc[2]]
+                        lost_pos = rc[1] - nc[1]
+                        # a keyword may have become positional or the other way round: compare the total number of arguments too
+                        if (lost_kw or lost_pos > 0) and (nc[1] + len(nc[2]) < rc[1] + len(rc[2])):
+                            if not _callee_still_accepts(ix, table, callee, rc, lost_kw):
+                                continue
+                            ctx.ob(fi.where, f"the call `{callee}(...)` still passes every argument it passed on the reference tree (a dropped argument is silently replaced by the "
+                                   "callee's default)", False, f"was {rc[1]} positional + {rc[2]}, now {nc[1]} positional + {nc[2]}",
+                                   key=f"{prop}-T1|argument-dropped|{mod}|{qn}|{callee}")
+        ctx.count("call sites compared with the reference", nargs)
         ctx.count("quantified tests compared with the reference", nq)
         ctx.count("parameters compared with the reference", npar)
         ctx.floor("functions of the anchor files compared with the reference tree", nf, 10)
